@@ -117,9 +117,21 @@ def _find_loop(p: Program, fn: FuncInfo):
                 g = None
             if isinstance(g, FuncInfo) and g.is_generator() and default_inline(g) and any(_is_next_event(n) for n in ast.walk(g.node)):
                 return lp, lp.body, lp.target.id, g, None
+            # an explicit iterator object of a private class whose __next__ fetches the events and raises StopIteration at a terminal one
+            from ..loader import ClassInfo as _CI
+            if isinstance(g, _CI) and g.name.startswith("_") and "__next__" in dict.keys(g.methods) and any(_is_next_event(n) for n in ast.walk(g.methods["__next__"].node)):
+                return lp, lp.body, lp.target.id, _IterClass(g), None
         if isinstance(lp, ast.While) and isinstance(lp.test, ast.NamedExpr) and _is_next_event(lp.test.value):
             raise _Undecided("event fetched in the loop test")
     raise _Undecided(pending_problem or "no loop that fetches decoder events with next_event()")
+
+
+class _IterClass:
+    """a private iterator class used as the event source (stands where the generator helper stands)"""
+
+    def __init__(self, ci) -> None:
+        self.ci = ci
+        self.name = ci.name
 
 
 class _Exits(ast.NodeTransformer):
@@ -404,10 +416,43 @@ def iteration(p: Program, fn: FuncInfo) -> Iteration:
     source = "event = parser.next_event() at the top of the loop"
     if excluded is not None:
         source = "event fetched by the loop's own test / rotation (terminal events end the loop)"
-    if gen is not None:
+    if isinstance(gen, _IterClass):
+        source = f"events pulled from the iterator object {gen.name}(...)"
+        problems += _check_iter_class(p, gen.ci, all_classes)
+    elif gen is not None:
         source = f"events pulled from the generator {gen.name}()"
         problems += _check_generator(p, gen, all_classes)
     return Iteration(fn, out, roles, all_classes, source, problems)
+
+
+def _check_iter_class(p: Program, ci, all_classes: List[str]) -> List[str]:
+    """__next__ of the iterator class: every path fetches exactly one event; a non-terminal event is RETURNED (handed on), a terminal
+    one raises StopIteration (ends the for loop) - and nothing else happens to the events"""
+    nx = ci.methods["__next__"]
+    try:
+        paths, col, it = run_paths(p, nx, ci)
+    except Exception as e:
+        return [f"{ci.name}.__next__: not analysable ({e})"]
+    bad: List[str] = []
+    for pa in paths:
+        fetched = [e for e in pa.events if e.kind == "call" and e.a[0] == "attr" and e.a[2] == "next_event"]
+        if len(fetched) != 1:
+            bad.append(f"{ci.name}.__next__: a path fetches {len(fetched)} events")
+            continue
+        EVT = ("call", fetched[0].a, fetched[0].b, fetched[0].c, fetched[0].tag)
+        cl = set(all_classes)
+        for f, t in pa.facts:
+            if f[0] == "call" and f[1] == ("builtin", "isinstance") and len(f[2]) == 2 and f[2][0][:4] == EVT[:4]:
+                names = _classes_of(f[2][1])
+                if names is not None:
+                    cl = (cl & set(names)) if t else (cl - set(names))
+        if cl - TERMINAL:
+            if not (pa.exit == "return" and pa.value[:4] == EVT[:4]):
+                bad.append(f"{ci.name}.__next__: a {sorted(cl - TERMINAL)} event is not handed on ({pa.exit} {pa.value if pa.exit == 'raise' else ''})")
+        else:
+            if not (pa.exit == "raise" and pa.value == "StopIteration"):
+                bad.append(f"{ci.name}.__next__: a terminal event does not end the iteration")
+    return bad
 
 
 def _check_generator(p: Program, g: FuncInfo, all_classes: List[str]) -> List[str]:
